@@ -475,6 +475,7 @@ int Wave_Bank::find_duplicate(const Wave_Bank::Sample& header, const std::vector
 		if(   i.position + sample.size() <= rom_data.size()
 		   && sample.size() <= i.size
 		   && i.loop_start <= header.loop_start
+		   && fit_sample(header, i.position + header.start, rom_data.size()) == i.position + header.start
 		   && std::equal(sample.begin(), sample.end(), rom_data.begin() + i.position))
 			return id;
 		id++;
